@@ -26,6 +26,10 @@ class Scalar (F : Type) where
   isSignPositive : F → Bool
   posInf : F
   negInf : F
+  /-- `f64::NAN` (default: 0.0 / 0.0) -/
+  nan : F := div (lit 0 0) (lit 0 0)
+  /-- `f64::min` (NaN-ignoring; default: −max(−a, −b)) -/
+  min : F → F → F := fun a b => neg (max (neg a) (neg b))
 
 namespace Scalar
 variable {F : Type} [Scalar F]
